@@ -35,6 +35,8 @@ type BatchInfo struct {
 	Timeout  int64
 	Freq     uint64
 	NReq     int
+	Threshold uint32 // module threshold in force when the batch started (ledger)
+	HasThreshold bool
 	DoneH    int64 // height at which the batch state went completed (0 = not yet)
 	ExpiredH int64
 }
@@ -62,6 +64,9 @@ type CtxInfo struct {
 	HugeFreq bool
 	CreatedRunning bool
 	Consumer []byte
+	// Threshold: response threshold in force according to the owning module's successful create/update calls
+	Threshold    uint32
+	HasThreshold bool
 }
 
 type BindInfo struct {
@@ -303,6 +308,7 @@ func (t *Tracker) Apply(x *Exec, r *StepRec) {
 		case r.Kind == "mod":
 			ci.Origin = "module"
 			ci.Ref = ctxRefOf("mod-"+r.Mod.Label, 0)
+			ci.Threshold, ci.HasThreshold = r.Mod.Threshold, true
 		case r.Kind == "msg" && r.Msg.T == "call":
 			ci.Origin = "user"
 			if x.cfg.ModuleService && r.Msg.Svc == types.OraclePriceServiceName {
@@ -322,6 +328,11 @@ func (t *Tracker) Apply(x *Exec, r *StepRec) {
 		}
 	}
 
+	if r.Kind == "mod" && r.Mod.T == "update" && r.Mod.Threshold > 0 {
+		if ci := t.Ctxs[hx(x.resolveCtx(r.Mod.Ctx))]; ci != nil && ci.Origin == "module" {
+			ci.Threshold, ci.HasThreshold = r.Mod.Threshold, true
+		}
+	}
 	// context changes
 	for _, id := range pre.CtxIDs() {
 		ci := t.Ctxs[id]
@@ -371,7 +382,8 @@ func (t *Tracker) Apply(x *Exec, r *StepRec) {
 					nreq++
 				}
 			}
-			ci.Batches = append(ci.Batches, BatchInfo{N: qc.BatchCounter, StartH: h, Issued: nreq > 0, Timeout: qc.Timeout, Freq: qc.RepeatedFrequency, NReq: nreq})
+			ci.Batches = append(ci.Batches, BatchInfo{N: qc.BatchCounter, StartH: h, Issued: nreq > 0, Timeout: qc.Timeout, Freq: qc.RepeatedFrequency, NReq: nreq,
+				Threshold: ci.Threshold, HasThreshold: ci.HasThreshold})
 		}
 		if n := len(ci.Batches); n > 0 {
 			b := &ci.Batches[n-1]
